@@ -36,6 +36,11 @@ def fixed_cases():
             "b": {"constructor": "fx.NewB", "arguments": ["10", 10], "fields": {"F1": "true", "F2": True}, "calls": [["Call1", [3]], ["With1", ["3"], True], ["Call2", ["%pi%", "%ps%", "%pb%", "%pbs%"]]]},
             "c": {"constructor": "fx.NewC", "arguments": ["%pn%", "%pns%", "%pf%", "%pfs%", 10, "10"]}},
          "decorators": []},
+        # a placeholder stays a placeholder when a later file re-opens the service without repeating `todo`
+        {"meta": dict(fx), "services": {"t": {"todo": True, "constructor": "fx.NewA", "arguments": ["draft"], "tags": ["x"]},
+                                        "u": {"constructor": "fx.NewA", "arguments": ["@t"]}, "v": {"constructor": "fx.NewA", "scope": "non_shared", "tags": ["y"]}},
+         "__files__": [{"meta": dict(fx), "services": {"t": {"todo": True, "constructor": "fx.NewA", "arguments": ["draft"]}, "v": {"constructor": "fx.NewA", "scope": "non_shared"}}},
+                       {"services": {"t": {"tags": ["x"]}, "u": {"constructor": "fx.NewA", "arguments": ["@t"]}, "v": {"tags": ["y"]}}}]},
     ]
 
 
